@@ -362,6 +362,28 @@ func runConnect(o Opts) string {
 		}
 		return 'a'
 	}
+	// a cache that first imported a corrupted copy and then the GENUINE identifier (the application got a corrected
+	// copy): what was imported last is what it holds, so the shared session works
+	for _, name := range []string{"first-char", "last-char"} {
+		bad := base + string(flip(sec[0])) + sec[1:]
+		if name == "last-char" {
+			bad = base + sec[:63] + string(flip(sec[63]))
+		}
+		wc := security.NewSessionCache()
+		if _, err := security.ImportClaimSession(wc, bad, security.ClaimSessionOptions{}); err != nil {
+			continue
+		}
+		if sid2, err := security.ImportClaimSession(wc, full, security.ClaimSessionOptions{}); err != nil || sid2 != r.sid {
+			return fmt.Sprintf("importing the genuine identifier into a cache that had imported a corrupted copy (%s) failed: %v", name, err)
+		}
+		if e, ok := wc.Lookup(r.sid); !ok || e.KeyInfo() == nil || !bytes.Equal(e.KeyInfo().Data, refKey(r.secret)) {
+			return fmt.Sprintf("after importing the genuine identifier over a corrupted copy (%s) the cache does not hold the key derived from the genuine secret", name)
+		}
+		_, _, cOK, sOK, cP, sP, det := connect(r.sid, wc, r.minterC)
+		if !cOK || !sOK || !cP || !sP {
+			return fmt.Sprintf("genuine identifier imported over a corrupted copy (%s): importer -> minter does not work (%s)", name, det)
+		}
+	}
 	for name, bad := range map[string]string{
 		"first-char": base + string(flip(sec[0])) + sec[1:], "last-char": base + sec[:63] + string(flip(sec[63])),
 		"middle-char": base + sec[:31] + string(flip(sec[31])) + sec[32:], "deleted": base + sec[:63], "appended": base + sec + "0"} {
